@@ -6,6 +6,7 @@ from .. import codec as C
 META = {
     "technique": "codec-sequence extraction over all success paths (writer vs reader, position by position) + tag-table agreement + origin terms",
     "explanation": (
+        "R-C15.7: the Start marker's seqno takes part in the checksum (known finding: it does not). R-C15.8: a decode failure is taken for the torn tail only after a look at what follows (known finding: JournalReader::next truncates blindly). "
         "Decides agreement of the two sibling implementations of the journal format: (1) for each record kind the ordered "
         "primitive writes of Entry::encode_into / serialize_marker_item equal, in width and endianness, the ordered reads "
         "of the matching Entry::decode_from arm (Start u8 u32le u64le; Item u8 u8 Compression u64le u16le u32le u32le "
